@@ -6,6 +6,7 @@ use std::path::{Path, PathBuf};
 use crate::engine::core::ColumnReader;
 use crate::engine::core::column::compression::CompressedColumnIndex;
 use crate::engine::core::event::event::Event;
+use crate::engine::core::event::event_id::EventId;
 use crate::engine::core::segment::segment_id::{LEVEL_SPAN, SegmentId};
 use crate::engine::core::wal::wal_entry::WalEntry;
 use crate::engine::shard::context::ShardContext;
@@ -41,7 +42,12 @@ impl WalRecovery {
         // crash in between, those entries are already durable: replaying them would store
         // (and count) every such event twice.
         let flushed = match Self::wal_event_id_range(&wal_files) {
-            Some(range) => Self::flushed_event_ids(ctx, range),
+            Some(range) => {
+                // Ids generated from now on (also for id-less entries replayed below) must
+                // be greater than every id in the WAL, whatever the wall clock says.
+                ctx.event_id_gen.observe(EventId::from_raw(range.1));
+                Self::flushed_event_ids(ctx, range)
+            }
             None => HashSet::new(),
         };
 
@@ -96,9 +102,35 @@ impl WalRecovery {
     /// behaviour (a duplicate).
     fn flushed_event_ids(ctx: &ShardContext, (lo, hi): (u64, u64)) -> HashSet<u64> {
         let mut ids = HashSet::new();
+        Self::for_each_published_event_id(
+            ctx,
+            |segment| segment.id < LEVEL_SPAN,
+            |id| {
+                if (lo..=hi).contains(&id) {
+                    ids.insert(id);
+                }
+            },
+        );
+        ids
+    }
+
+    /// Largest event id stored in the published segments of the shard (all levels), if any.
+    pub fn max_published_event_id(ctx: &ShardContext) -> Option<u64> {
+        let mut max: Option<u64> = None;
+        Self::for_each_published_event_id(ctx, |_| true, |id| max = max.max(Some(id)));
+        max
+    }
+
+    /// Calls `visit` with every event id stored in the published segments selected by
+    /// `wanted`. Unreadable columns are skipped.
+    fn for_each_published_event_id(
+        ctx: &ShardContext,
+        wanted: impl Fn(&SegmentId) -> bool,
+        mut visit: impl FnMut(u64),
+    ) {
         let labels: Vec<String> = ctx.segment_ids.read().unwrap().clone();
         for label in labels {
-            if !SegmentId::from_str(&label).is_some_and(|s| s.id < LEVEL_SPAN) {
+            if !SegmentId::from_str(&label).is_some_and(|s| wanted(&s)) {
                 continue;
             }
             let segment_dir = ctx.base_dir.join(&label);
@@ -124,18 +156,20 @@ impl WalRecovery {
                     ) {
                         Ok(snapshot) => {
                             let values = snapshot.into_values();
-                            ids.extend((0..values.len()).filter_map(|idx| {
-                                values
+                            for idx in 0..values.len() {
+                                if let Some(id) = values
                                     .get_u64_at(idx)
                                     .or_else(|| values.get_i64_at(idx).map(|v| v as u64))
                                     .or_else(|| {
                                         values.get_str_at(idx).and_then(|s| s.parse().ok())
                                     })
-                                    .filter(|id| (lo..=hi).contains(id))
-                            }));
+                                {
+                                    visit(id);
+                                }
+                            }
                         }
                         Err(err) => warn!(
-                            target: "wal_recovery::flushed_event_ids",
+                            target: "wal_recovery::published_event_ids",
                             %label, uid, zone_id, %err,
                             "Could not read event ids of published segment"
                         ),
@@ -143,7 +177,6 @@ impl WalRecovery {
                 }
             }
         }
-        ids
     }
 
     fn replay_log_file(
